@@ -411,7 +411,9 @@ func verifC06ContinualGathering() {
 	for _, c := range w.net.socks {
 		verifAssert(c.closes.Load() >= 1, "every-socket-of-the-ended-generation-is-closed")
 	}
-	verifAssert(len(w.net.socks) == 1, "nothing-is-opened-for-the-new-address")
+	// (a tick that was already pending when the cycle was cancelled may still
+	// open a socket for the new address; the cancelled cycle's addCandidate
+	// refuses it and the socket is closed at once — covered by the loop above)
 	w.net.mu.Unlock()
 	verifAssert(a.Close() == nil, "Close")
 	verifAssert(verifQuiesce() == 0, "no-goroutine-left")
